@@ -1,211 +1,79 @@
-(* NOT the shipped code: a model of the CANDIDATE REPAIR of OrderSword.resolving proposed for the known
-   finding C09-adele-order-tick-cap, and the proof that with it AdeleOrderComponent.elapse is chunk
-   independent for ALL states (no capacity, sortedness or cap hypothesis; only interval > 0):
+(* AdeleOrderComponent after the repair 4d5f5f0 of the finding C09-adele-order-tick-cap (the model of the shipped
+   code IS the repaired reducer: Model/SpecAdele.v order_elapse; the general theorem is xelapse_chunk in
+   SpecAdeleChunk.v).  This file replays the two witnesses of the finding on the model as a regression:
 
-       def resolving(self, time, max_sword_count):
-           self._set_running_swords(self.running_swords, max_sword_count)      # (new) leave before ticking
-           for each sword (counter, time_left):
-               time_left -= time; counter -= time
-               while counter <= 0 and counter < time_left:                     # (was: elapse_count < maximum_elapsed)
-                   counter += self.interval; yield 1
-               keep the sword if time_left > 0
-           self._set_running_swords(result, max_sword_count)
+   (1) right after an accepted use of an Order with interval 1020 lasting 45000: elapse 100 then 44800 versus 44900
+       (the old code dealt 45 ticks / counter 1000 versus 44 ticks / counter -20: ticks of one call were capped by
+       int(time_left // interval) taken at the start of the call);
+   (2) 4 swords over a capacity of 6: elapse 100 then 9900 versus 10000 (the old code dealt 31 versus 40 ticks:
+       the sword beyond the capacity was dropped at the END of the call, after ticking for all of it);
 
-   Nothing in Props refers to this file; when the repair is committed, Model/SpecAdele.v takes these
-   definitions and fx_chunk becomes the C09 theorem of the class. *)
-From Coq Require Import ZArith List Bool Lia.
+   and shows that both paths now agree.  Also: every accepted reducer of the class leaves the sword list within the
+   capacity, and the executable instance used by the correspondence runs never runs out of fuel. *)
+From Coq Require Import ZArith List Bool Lia Permutation.
 From V.Model Require Import Comp SpecAdele.
-From V.Proofs Require Import CompChunk SpecAdeleChunk SpecAdeleOrder.
+From V.Proofs Require Import CompChunk SpecAdeleReject SpecAdeleOrder SpecAdeleChunk.
 Import ListNotations.
 Open Scope Z_scope.
 
-(* the repaired while loop; l = time_left after the subtraction; None = out of fuel *)
-Fixpoint fx_loop (fuel : nat) (I c l : Z) : option (Z * nat) :=
-  if (c <=? 0) && (c <? l) then
-    match fuel with
-    | O => None
-    | S f => match fx_loop f I (c + I) l with Some (c', n) => Some (c', S n) | None => None end
-    end
-  else Some (c, O).
-Definition fx_fuel (c : Z) : nat := Z.to_nat (1 - c).
-Definition fx_one (I t : Z) (x : sword) : sword * nat :=
-  let '(c, l) := x in
-  match fx_loop (fx_fuel (c - t)) I (c - t) (l - t) with Some (c', n) => ((c', l - t), n) | None => ((c - t, l - t), O) end.
-Fixpoint fx_map (I t : Z) (l : list sword) : list sword * nat :=
-  match l with
-  | [] => ([], O)
-  | x :: r => let '(y, n) := fx_one I t x in let '(r', m) := fx_map I t r in
-              ((if 0 <? snd y then [y] else []) ++ r', (n + m)%nat)
-  end.
-Definition fx_resolve (mx I t : Z) (l : list sword) : list sword * nat :=
-  let '(r, n) := fx_map I t (sw_trunc mx l) in (sw_trunc mx r, n).
-Definition fx_order_elapse (p : xpar) (t : Z) (s : xst) : xres :=
-  let '(sw, n) := fx_resolve (max_sw p s) (xp_swi p) t (x_sw s) in
-  (setsw (setu s (set_cd (x_u s) (u_cd (x_u s) - t))) sw, EElapsed t :: repeat (dealt (p_pd1 (xp p))) n).
+Definition within_capacity (p : xpar) (s : xst) : Prop := sword_count s <= max_sw p s.
 
-(* ------------------------------------------------------------ the loop *)
-Lemma fx_unfold f I c l :
-  fx_loop f I c l =
-  if (c <=? 0) && (c <? l) then
-    match f with O => None | S f' => match fx_loop f' I (c + I) l with Some (c', n) => Some (c', S n) | None => None end end
-  else Some (c, O).
-Proof. destruct f; reflexivity. Qed.
-
-Lemma fx_S : forall f I c l r, fx_loop f I c l = Some r -> fx_loop (S f) I c l = Some r.
+Lemma order_capacity_established m p t s s' es :
+  0 <= max_sw p s -> xreduce_spec Order m p t s = Some (s', es) -> rejected es = false -> within_capacity p s'.
 Proof.
-  induction f as [|f IH]; intros I c l r H; rewrite fx_unfold in H; rewrite fx_unfold;
-    destruct ((c <=? 0) && (c <? l)); try discriminate; try exact H.
-  destruct (fx_loop f I (c + I) l) as [[c' n]|] eqn:E; [|discriminate]. rewrite (IH _ _ _ _ E). exact H.
-Qed.
-Lemma fx_mono f f' I c l r : (f <= f')%nat -> fx_loop f I c l = Some r -> fx_loop f' I c l = Some r.
-Proof. intros L; induction L; intros H0; [exact H0|]. apply fx_S. auto. Qed.
-
-Lemma fx_enough I : 0 < I -> forall f c l, (fx_fuel c <= f)%nat -> exists r, fx_loop f I c l = Some r.
-Proof.
-  intros HI. unfold fx_fuel. induction f as [|f IH]; intros c l F; rewrite fx_unfold;
-    destruct ((c <=? 0) && (c <? l)) eqn:G; try (eexists; reflexivity).
-  - apply andb_prop in G. destruct G as [G _]. apply Z.leb_le in G. lia.
-  - apply andb_prop in G. destruct G as [G _]. apply Z.leb_le in G.
-    destruct (IH (c + I) l ltac:(lia)) as [[c' n] E]. rewrite E. eexists. reflexivity.
+  intros Hm H R. unfold within_capacity, sword_count. destruct m; try discriminate.
+  - cbn [xreduce_spec xreduce] in H. destruct (negb _); injection H as <- <-; [discriminate|].
+    cbn [x_sw setsw setu]. change (max_sw p (setsw _ _)) with (max_sw p s). apply sw_trunc_cap. exact Hm.
+  - cbn [xreduce_spec xreduce] in H. unfold order_elapse in H.
+    pose proof (sw_resolve_cap (max_sw p s) (xp_swi p) t (x_sw s) Hm) as C.
+    destruct (sw_resolve _ _ _ _) as [sw n]. injection H as <- <-. cbn [x_sw setsw fst] in *.
+    change (max_sw p (setsw _ _)) with (max_sw p s). exact C.
 Qed.
 
-(* elapsing d more first: the loop passes through the state in which it would have stopped *)
-Lemma fx_shift : forall f f' I c l d c1 n1 c2 n2, 0 <= d ->
-  fx_loop f I c l = Some (c1, n1) -> fx_loop f' I (c1 - d) (l - d) = Some (c2, n2) ->
-  fx_loop (f + f') I (c - d) (l - d) = Some (c2, (n1 + n2)%nat).
+(* the executable instance of the class (correspondence runs) answers, and answers what the specification does *)
+Lemma order_exec_spec m p t s :
+  0 < xp_swi p -> xexec_ok s t = true -> xreduce_exec Order m p t s = xreduce pe_exec pg_exec Order m p t s.
 Proof.
-  induction f as [|f IH]; intros f' I c l d c1 n1 c2 n2 Hd H H'; rewrite fx_unfold in H.
-  - destruct ((c <=? 0) && (c <? l)); [discriminate|]. injection H as <- <-. exact H'.
-  - destruct ((c <=? 0) && (c <? l)) eqn:G.
-    + destruct (fx_loop f I (c + I) l) as [[c0 n0]|] eqn:E; [|discriminate]. injection H as <- <-.
-      rewrite fx_unfold. apply andb_prop in G. destruct G as [G1 G2]. apply Z.leb_le in G1. apply Z.ltb_lt in G2.
-      replace ((c - d <=? 0) && (c - d <? l - d)) with true
-        by (symmetry; apply andb_true_intro; split; [apply Z.leb_le|apply Z.ltb_lt]; lia).
-      cbn [Nat.add]. replace (c - d + I) with (c + I - d) by lia.
-      rewrite (IH f' I (c + I) l d c0 n0 c2 n2 Hd E H'). reflexivity.
-    + injection H as <- <-. eapply fx_mono; [|exact H']. lia.
+  intros HI OK. unfold xreduce_exec. rewrite OK.
+  replace (sw_exec_ok Order m p t s) with true; [reflexivity|].
+  destruct m; try reflexivity. cbn [sw_exec_ok]. symmetry. apply sw_resolve_ok_true. exact HI.
 Qed.
 
-Lemma fx_one_some I t c l : 0 < I -> exists c' n, fx_loop (fx_fuel (c - t)) I (c - t) (l - t) = Some (c', n) /\ fx_one I t (c, l) = ((c', l - t), n).
+(* ------------------------------------------------------------ the witnesses of the repaired finding *)
+Definition ord_par : par :=
+  mkPar false (0, 0) 0 500 0 45000 45000 0%nat [] (7, 2) (0, 0) (0, 0) (0, 0) 0 (0, 0) 0 0 0 0 (0, 0).
+Definition ord_p : xpar := mkXP ord_par 400 100 100 5 12 21 0 1020 6 8 (0, 0) 0 999999999 1 0 0 0.
+Definition ord_s0 : xst := mkX x_u0 (PG.mk 1 [1] 0 0) 400 0 0 [].
+Definition ord_s : xst := mkX (set_cd x_u0 500) (PG.mk 1 [1] 0 0) 400 0 0 [(0, 45000)].
+(* four swords while the restore buff of another component has run out: capacity 8 -> 6 *)
+Definition ord_s4 : xst :=
+  mkX (set_cd x_u0 0) (PG.mk 1 [1] 0 0) 0 0 0 [(40, 43000); (540, 43500); (20, 44000); (520, 44500)].
+
+Example order_witnesses_repaired :
+  xreduce_spec Order XUse ord_p 0 ord_s0 = Some (ord_s, [dealt (p_pd1 (xp ord_p)); EDelay 0]) /\
+  wf_x ord_p ord_s /\ wf_x ord_p ord_s4 /\ within_capacity ord_p ord_s /\ ~ within_capacity ord_p ord_s4 /\
+  (* (1) 100 then 44800 versus 44900: 45 ticks on both paths, same sword *)
+  (exists s1 e1 s2 e2 e3,
+     xreduce_spec Order XElapse ord_p 100 ord_s = Some (s1, e1) /\ xreduce_spec Order XElapse ord_p 44800 s1 = Some (s2, e2) /\
+     xreduce_spec Order XElapse ord_p 44900 ord_s = Some (s2, e3) /\
+     dealts (e1 ++ e2) = dealts e3 /\ length (dealts e3) = 45%nat /\ x_sw s2 = [(1000, 100)]) /\
+  (* (2) 4 swords over a capacity of 6, 100 then 9900 versus 10000: 30 ticks on both paths, same three swords *)
+  (exists s1 e1 s2 e2 e3,
+     xreduce_spec Order XElapse ord_p 100 ord_s4 = Some (s1, e1) /\ xreduce_spec Order XElapse ord_p 9900 s1 = Some (s2, e2) /\
+     xreduce_spec Order XElapse ord_p 10000 ord_s4 = Some (s2, e3) /\
+     dealts (e1 ++ e2) = dealts e3 /\ length (dealts e3) = 30%nat /\ length (x_sw s1) = 3%nat /\ length (x_sw s2) = 3%nat).
 Proof.
-  intros HI. destruct (fx_enough I HI (fx_fuel (c - t)) (c - t) (l - t) (Nat.le_refl _)) as [[c' n] E].
-  exists c', n. split; [exact E|]. unfold fx_one. rewrite E. reflexivity.
+  split; [vm_compute; reflexivity|].
+  split; [repeat split; cbn; try lia; try discriminate; repeat constructor|].
+  split; [repeat split; cbn; try lia; try discriminate; repeat constructor|].
+  split; [vm_compute; discriminate|].
+  split; [vm_compute; intros X; apply X; reflexivity|].
+  split; do 5 eexists; do 5 (split; [vm_compute; reflexivity|]); [|split]; vm_compute; reflexivity.
 Qed.
 
-Lemma fx_det f f' I c l r r' : fx_loop f I c l = Some r -> fx_loop f' I c l = Some r' -> r = r'.
-Proof.
-  intros H H'. destruct (Nat.le_ge_cases f f') as [L|L].
-  - rewrite (fx_mono _ _ _ _ _ _ L H) in H'. congruence.
-  - rewrite (fx_mono _ _ _ _ _ _ L H') in H. congruence.
-Qed.
-
-(* one sword: a then b = a+b; a sword that expires in the first chunk does not tick later *)
-Lemma fx_one_add I a b c l : 0 < I -> 0 <= a -> 0 <= b ->
-  let '(y1, n1) := fx_one I a (c, l) in let '(y2, n2) := fx_one I b y1 in
-  fx_one I (a + b) (c, l) = (y2, (n1 + n2)%nat) /\ (snd y1 <= 0 -> n2 = O).
-Proof.
-  intros HI Ha Hb.
-  destruct (fx_one_some I a c l HI) as (c1 & n1 & L1 & E1). rewrite E1.
-  destruct (fx_one_some I b c1 (l - a) HI) as (c2 & n2 & L2 & E2). rewrite E2.
-  destruct (fx_one_some I (a + b) c l HI) as (c3 & n3 & L3 & E3). rewrite E3.
-  pose proof (fx_shift _ _ I (c - a) (l - a) b c1 n1 c2 n2 Hb L1 L2) as X.
-  replace (c - a - b) with (c - (a + b)) in X by lia. replace (l - a - b) with (l - (a + b)) in *  by lia.
-  pose proof (fx_det _ _ _ _ _ _ _ L3 X) as Y. injection Y as -> ->. split; [reflexivity|].
-  (* the stop condition of the first loop *)
-  cbn [snd]. intros Hl. rewrite fx_unfold in L2.
-  assert (STOP : (c1 <=? 0) && (c1 <? l - a) = false).
-  { clear -L1. remember (fx_fuel (c - a)) as f eqn:Ef. clear Ef. revert L1. generalize (c - a) as c0. revert n1.
-    induction f as [|f IH]; intros n1 c0 H; rewrite fx_unfold in H; destruct ((c0 <=? 0) && (c0 <? l - a)) eqn:G; try discriminate.
-    - injection H as <- _. exact G.
-    - destruct (fx_loop f I (c0 + I) (l - a)) as [[c' n]|] eqn:E; [|discriminate]. injection H as <- _. apply (IH _ _ E).
-    - injection H as <- _. exact G. }
-  replace ((c1 - b <=? 0) && (c1 - b <? l - (a + b))) with false in L2.
-  - injection L2 as _ <-. reflexivity.
-  - symmetry. apply andb_false_iff. apply andb_false_iff in STOP. destruct STOP as [S|S].
-    + apply Z.leb_gt in S. right. apply Z.ltb_ge. lia.
-    + apply Z.ltb_ge in S. right. apply Z.ltb_ge. lia.
-Qed.
-
-Lemma fx_map_cons I t x r :
-  fx_map I t (x :: r) =
-  ((if 0 <? snd (fst (fx_one I t x)) then [fst (fx_one I t x)] else []) ++ fst (fx_map I t r),
-   (snd (fx_one I t x) + snd (fx_map I t r))%nat).
-Proof. cbn [fx_map]. destruct (fx_one I t x) as [y n]. destruct (fx_map I t r) as [r' m]. reflexivity. Qed.
-
-Lemma fx_one_snd I t c l : snd (fst (fx_one I t (c, l))) = l - t.
-Proof. unfold fx_one. destruct (fx_loop _ _ _ _) as [[c' n]|]; reflexivity. Qed.
-
-Lemma fx_map_add I a b l : 0 < I -> 0 <= a -> 0 <= b ->
-  fst (fx_map I b (fst (fx_map I a l))) = fst (fx_map I (a + b) l) /\
-  (snd (fx_map I a l) + snd (fx_map I b (fst (fx_map I a l))))%nat = snd (fx_map I (a + b) l).
-Proof.
-  intros HI Ha Hb. induction l as [|[c tl] r [IH1 IH2]]; [split; reflexivity|].
-  rewrite (fx_map_cons I a), (fx_map_cons I (a + b)). cbn [fst snd].
-  pose proof (fx_one_add I a b c tl HI Ha Hb) as X.
-  destruct (fx_one I a (c, tl)) as [y1 n1] eqn:E1. destruct (fx_one I b y1) as [y2 n2] eqn:E2. destruct X as [X D].
-  rewrite X. cbn [fst snd].
-  assert (S1 : snd y1 = tl - a) by (rewrite <- (fx_one_snd I a c tl), E1; reflexivity).
-  assert (S2 : snd y2 = tl - (a + b)) by (rewrite <- (fx_one_snd I (a + b) c tl), X; reflexivity).
-  destruct (0 <? snd y1) eqn:G1.
-  - cbn [app]. rewrite (fx_map_cons I b). cbn [fst snd]. rewrite E2. cbn [fst snd]. rewrite IH1. split; [reflexivity|]. lia.
-  - cbn [app]. apply Z.ltb_ge in G1. rewrite (D G1). replace (0 <? snd y2) with false by (symmetry; apply Z.ltb_ge; lia).
-    cbn [app]. split; [exact IH1|]. lia.
-Qed.
-
-Lemma fx_map_len I t l : (length (fst (fx_map I t l)) <= length l)%nat.
-Proof. induction l as [|x r IH]; [cbn; lia|]. rewrite fx_map_cons. cbn [fst]. rewrite app_length. destruct (0 <? _); cbn [length]; lia. Qed.
-
-(* a list no longer than an already truncated one is not truncated again *)
-Lemma sw_trunc_sub mx l r : (length r <= length (sw_trunc mx l))%nat -> sw_trunc mx r = r.
-Proof.
-  intros H. destruct (sw_trunc mx l) as [|x0 r0] eqn:E.
-  - destruct r; [reflexivity|cbn in H; lia].
-  - apply sw_trunc_id.
-    assert (C : 2 * Z.of_nat (length (x0 :: r0)) <= mx).
-    { clear H. revert E. induction l as [|y l IH]; cbn [sw_trunc]; [discriminate|].
-      destruct (mx <? 2 * Z.of_nat (length (y :: l))) eqn:G; [exact IH|]. intros E. rewrite <- E. apply Z.ltb_ge in G. exact G. }
-    lia.
-Qed.
-
-Theorem fx_resolve_add mx I a b l : 0 < I -> 0 <= a -> 0 <= b ->
-  fst (fx_resolve mx I b (fst (fx_resolve mx I a l))) = fst (fx_resolve mx I (a + b) l) /\
-  (snd (fx_resolve mx I a l) + snd (fx_resolve mx I b (fst (fx_resolve mx I a l))))%nat = snd (fx_resolve mx I (a + b) l).
-Proof.
-  intros HI Ha Hb. unfold fx_resolve. set (l0 := sw_trunc mx l).
-  destruct (fx_map_add I a b l0 HI Ha Hb) as [M1 M2].
-  pose proof (fx_map_len I a l0) as L1. pose proof (fx_map_len I (a + b) l0) as L3.
-  destruct (fx_map I a l0) as [r1 n1] eqn:E1. cbn [fst snd] in *.
-  rewrite (sw_trunc_sub mx l r1 L1). cbn [fst snd]. rewrite (sw_trunc_sub mx l r1 L1).
-  pose proof (fx_map_len I b r1) as L2.
-  destruct (fx_map I b r1) as [r2 n2] eqn:E2. cbn [fst snd] in *.
-  destruct (fx_map I (a + b) l0) as [r3 n3] eqn:E3. cbn [fst snd] in *.
-  subst r3 n3. split; [|reflexivity].
-  rewrite (sw_trunc_sub mx l r2) by (fold l0; lia). reflexivity.
-Qed.
-
-(* the repaired reducer: chunk independent in every state *)
-Theorem fx_chunk p a b s : 0 < xp_swi p -> 0 <= a -> 0 <= b ->
-  let '(s1, e1) := fx_order_elapse p a s in let '(s2, e2) := fx_order_elapse p b s1 in
-  let '(s3, e3) := fx_order_elapse p (a + b) s in
-  s2 = s3 /\ dealts (e1 ++ e2) = dealts e3.
-Proof.
-  intros HI Ha Hb. unfold fx_order_elapse.
-  destruct (fx_resolve_add (max_sw p s) (xp_swi p) a b (x_sw s) HI Ha Hb) as [R1 R2].
-  destruct (fx_resolve (max_sw p s) (xp_swi p) a (x_sw s)) as [sw1 n1] eqn:E1. cbn [x_sw x_u setsw setu].
-  change (max_sw p (setsw _ sw1)) with (max_sw p s). cbn [fst snd] in R1, R2.
-  destruct (fx_resolve (max_sw p s) (xp_swi p) b sw1) as [sw2 n2] eqn:E2.
-  destruct (fx_resolve (max_sw p s) (xp_swi p) (a + b) (x_sw s)) as [sw3 n3] eqn:E3. cbn [fst snd] in R1, R2. subst sw3 n3.
-  split.
-  - apply xst_ext; cbn [x_u x_sw x_gauge x_rl x_rlad x_pg setsw setu]; try reflexivity. ust_eq.
-  - rewrite dealts_app, !dealts_elapsed. apply repeat_add.
-Qed.
-
-(* on the two witnesses of the finding the repaired reducer gives 45 = 45 and 30 = 30 ticks *)
-Example fx_witnesses :
-  (let '(s1, e1) := fx_order_elapse ord_p 100 ord_s in let '(s2, e2) := fx_order_elapse ord_p 44800 s1 in
-   let '(s3, e3) := fx_order_elapse ord_p 44900 ord_s in
-   (length (dealts (e1 ++ e2)), length (dealts e3), x_sw s2, x_sw s3)) = (45%nat, 45%nat, [(1000, 100)], [(1000, 100)]) /\
-  (let '(s1, e1) := fx_order_elapse ord_p 100 ord_s4 in let '(s2, e2) := fx_order_elapse ord_p 9900 s1 in
-   let '(s3, e3) := fx_order_elapse ord_p 10000 ord_s4 in
-   (length (dealts (e1 ++ e2)), length (dealts e3))) = (30%nat, 30%nat).
-Proof. split; vm_compute; reflexivity. Qed.
+(* the executable instance agrees on the witnesses (and does not run out of fuel) *)
+Example order_witnesses_exec :
+  xreduce_exec Order XElapse ord_p 44900 ord_s = xreduce_spec Order XElapse ord_p 44900 ord_s /\
+  xreduce_exec Order XElapse ord_p 10000 ord_s4 = xreduce_spec Order XElapse ord_p 10000 ord_s4 /\
+  xreduce_exec Order XElapse ord_p 10000 ord_s4 <> None.
+Proof. repeat split; vm_compute; try reflexivity; discriminate. Qed.
